@@ -138,14 +138,31 @@ def parseShapes : Nat → List Float → Option (List Shape × List Float)
     else none
   | _, _ => none
 
+/-- the field a canvas holds after ONE `AddField` of the union of `shapes`, at lattice point `p` (lattice coordinates as
+    floats), sampled as the canvas samples it: `float64(i) / cubesPerUnit` -/
+def sampleUnion (shapes : List Shape) (cpu : Float) (p : Array Float) : Float :=
+  fieldAt shapes ⟨p[0]! / cpu, p[1]! / cpu, p[2]! / cpu⟩
+
+/-- one added field: padded lattice bounds `[lo, hi)` of the samples `AddField*` writes, and its shapes -/
+structure AddedField where
+  lo : Array Float
+  hi : Array Float
+  shapes : List Shape
+
+/-- the field a canvas holds after SEVERAL `AddField*` calls: every call ADDS (`+=`) its samples inside its own padded
+    sample box onto what is there (0 initially) -/
+def sampleAccumulated (fs : List AddedField) (cpu : Float) (p : Array Float) : Float :=
+  fs.foldl (fun acc f =>
+    if f.lo[0]! ≤ p[0]! && p[0]! < f.hi[0]! && f.lo[1]! ≤ p[1]! && p[1]! < f.hi[1]! && f.lo[2]! ≤ p[2]! && p[2]! < f.hi[2]!
+    then acc + sampleUnion f.shapes cpu p else acc) 0.0
+
 /-- `NearIso`: the vertex (world coordinates) lies, within `tol` lattice units, on a lattice edge
     `[p, p+e_k]` of the sampling grid whose two end points — sampled exactly as the canvas samples them,
     `float64(i) / cubesPerUnit` — are on different sides of the cutoff. -/
-def nearIsoVertex (shapes : List Shape) (cpu cutoff : Float) (v : V3 Float) : Bool :=
+def nearIsoVertex (sample : Array Float → Float) (cpu cutoff : Float) (v : V3 Float) : Bool :=
   let tol : Float := 1e-6
   let u : Array Float := #[v.x * cpu, v.y * cpu, v.z * cpu]
   let r : Array Float := u.map Float.round
-  let sample (p : Array Float) : Float := fieldAt shapes ⟨p[0]! / cpu, p[1]! / cpu, p[2]! / cpu⟩
   (List.range 3).any fun k =>
     let j1 := (k + 1) % 3; let j2 := (k + 2) % 3
     (u[j1]! - r[j1]!).abs ≤ tol && (u[j2]! - r[j2]!).abs ≤ tol &&
@@ -159,11 +176,10 @@ def nearIsoVertex (shapes : List Shape) (cpu cutoff : Float) (v : V3 Float) : Bo
 /-- the inside→outside direction (±e_k) of the sign-changing lattice edge the vertex lies on; `none` when the vertex
     lies on no such edge, on several (a vertex at a lattice corner: sample equal to the cutoff), or within the weld
     radius of a lattice corner -/
-def vertexOutDir (shapes : List Shape) (cpu cutoff : Float) (v : V3 Float) : Option (V3 Float) :=
+def vertexOutDir (sample : Array Float → Float) (cpu cutoff : Float) (v : V3 Float) : Option (V3 Float) :=
   let tol : Float := 1e-6
   let u : Array Float := #[v.x * cpu, v.y * cpu, v.z * cpu]
   let r : Array Float := u.map Float.round
-  let sample (p : Array Float) : Float := fieldAt shapes ⟨p[0]! / cpu, p[1]! / cpu, p[2]! / cpu⟩
   let cands : List (V3 Float) := (List.range 3).flatMap fun k =>
     let j1 := (k + 1) % 3; let j2 := (k + 2) % 3
     if (u[j1]! - r[j1]!).abs ≤ tol && (u[j2]! - r[j2]!).abs ≤ tol then
@@ -188,10 +204,10 @@ def vertexOutDir (shapes : List Shape) (cpu cutoff : Float) (v : V3 Float) : Opt
 /-- `TriOutward` — the predicate of `C09.emitted_triangle_outward` on the real mesh: for every triangle all of whose
     corners lie on exactly one sign-changing lattice edge, `normal · (d₀ + d₁ + d₂) ≥ −ε` (ε = 1e-6 cell², for slivers),
     and at least one such triangle (if there is any) is strictly positive -/
-def triOutward (shapes : List Shape) (cpu cutoff : Float) (tris : Array (Nat × Nat × Nat)) (pos : Array Float) : Bool :=
+def triOutward (sample : Array Float → Float) (cpu cutoff : Float) (tris : Array (Nat × Nat × Nat)) (pos : Array Float) : Bool :=
   let nv := pos.size / 3
   let dirs : Array (Option (V3 Float)) := (Array.range nv).map fun i =>
-    vertexOutDir shapes cpu cutoff ⟨pos[3*i]!, pos[3*i+1]!, pos[3*i+2]!⟩
+    vertexOutDir sample cpu cutoff ⟨pos[3*i]!, pos[3*i+1]!, pos[3*i+2]!⟩
   let eps : Float := 1e-6 / (cpu * cpu)
   let vals : Array (Option Float) := tris.map fun t =>
     match dirs[t.1]!, dirs[t.2.1]!, dirs[t.2.2]! with
@@ -334,6 +350,18 @@ def shapeToks : Nat → List String → Option (List Float × List String)
     pure (Float.ofNat kind :: fs.toList ++ l, r'')
   | _, _ => none
 
+/-- `nf` added fields: each `lo3 hi3 (decimal integers) ns shapes…` -/
+def addedFields : Nat → List String → Option (List AddedField × List String)
+  | 0, r => some ([], r)
+  | n+1, a :: b :: c :: d :: e :: f :: ns :: r => do
+    let lo ← [a, b, c].mapM int?; let hi ← [d, e, f].mapM int?
+    let ns ← nat? ns
+    let (sf, r') ← shapeToks ns r
+    let (shapes, _) ← parseShapes ns sf
+    let (l, r'') ← addedFields n r'
+    pure (⟨(lo.map Float.ofInt).toArray, (hi.map Float.ofInt).toArray, shapes⟩ :: l, r'')
+  | _, _ => none
+
 def handle (op : String) (args : List String) : Option String := do
   match op with
   | "c09.march.grid" =>
@@ -413,7 +441,37 @@ def handle (op : String) (args : List String) : Option String := do
         if !rest.isEmpty then none
         let tris := trisOf idx
         if !(tris.all fun t => t.1 < nv && t.2.1 < nv && t.2.2 < nv) then pure "false"
-        else pure (boolStr (triOutward shapes cpu cutoff tris pos))
+        else pure (boolStr (triOutward (sampleUnion shapes cpu) cpu cutoff tris pos))
+      | _ => none
+    | _ => none
+  -- the same two predicates against the ACCUMULATED field of several (overlapping) AddField / AddFieldParallel* calls
+  | "c09.holds.near_iso_accumulated" =>
+    match args with
+    | cpu :: cutoff :: nf :: rest => do
+      let cpu ← hexF? cpu; let cutoff ← hexF? cutoff; let nf ← nat? nf
+      let (fs, rest) ← addedFields nf rest
+      match rest with
+      | nv :: rest => do
+        let nv ← nat? nv
+        let (pos, rest) ← takeFloats (3 * nv) rest
+        if !rest.isEmpty then none
+        pure (boolStr ((List.range nv).all fun i => nearIsoVertex (sampleAccumulated fs cpu) cpu cutoff ⟨pos[3*i]!, pos[3*i+1]!, pos[3*i+2]!⟩))
+      | _ => none
+    | _ => none
+  | "c09.holds.tri_outward_accumulated" =>
+    match args with
+    | cpu :: cutoff :: nf :: rest => do
+      let cpu ← hexF? cpu; let cutoff ← hexF? cutoff; let nf ← nat? nf
+      let (fs, rest) ← addedFields nf rest
+      match rest with
+      | nv :: nt :: rest => do
+        let nv ← nat? nv; let nt ← nat? nt
+        let (idx, rest) ← takeNats (3 * nt) rest
+        let (pos, rest) ← takeFloats (3 * nv) rest
+        if !rest.isEmpty then none
+        let tris := trisOf idx
+        if !(tris.all fun t => t.1 < nv && t.2.1 < nv && t.2.2 < nv) then pure "false"
+        else pure (boolStr (triOutward (sampleAccumulated fs cpu) cpu cutoff tris pos))
       | _ => none
     | _ => none
   | "c09.holds.near_iso" =>
@@ -427,7 +485,7 @@ def handle (op : String) (args : List String) : Option String := do
         let nv ← nat? nv
         let (pos, rest) ← takeFloats (3 * nv) rest
         if !rest.isEmpty then none
-        pure (boolStr ((List.range nv).all fun i => nearIsoVertex shapes cpu cutoff ⟨pos[3*i]!, pos[3*i+1]!, pos[3*i+2]!⟩))
+        pure (boolStr ((List.range nv).all fun i => nearIsoVertex (sampleUnion shapes cpu) cpu cutoff ⟨pos[3*i]!, pos[3*i+1]!, pos[3*i+2]!⟩))
       | _ => none
     | _ => none
   | _ => none
